@@ -44,6 +44,7 @@ FLOOR = Fraction(1, 10 ** 5)
 ORACLE_TOL = Fraction(1, 10 ** 9)
 CASES_PER_FILE = 2000
 HIST_PER_FILE = 500          # histories (2-12 calls each) per generated file
+REENT_PER_FILE = 400         # conversions on re-entrant unit definitions per generated file
 
 
 # --------------------------------------------------------------------------
@@ -996,6 +997,152 @@ def call_forest(im, spec, a, b, x):
     return ("ok", (list(log), r))
 
 
+# ---- re-entrant unit definitions: callables that call units.convert themselves
+#
+# spec: list of entries, unit i = (parent|None, "aff", a, b)   x -> a*x + b and its inverse
+#                              | (parent|None, "via", s, d, k) base_to_unit = lambda m: convert(U[s], U[d], m) / k
+#                                                              unit_to_base = lambda y: convert(U[d], U[s], y * k)
+# parent, s, d < i (a definition can only mention units that exist already).
+
+def AFF(p, a, b=0):
+    return (p, "aff", Fraction(a), Fraction(b))
+
+
+def VIA(p, s, d, k):
+    return (p, "via", s, d, Fraction(k))
+
+
+def reent_depths(spec):
+    d = []
+    for e in spec:
+        d.append(0 if e[0] is None else d[e[0]] + 1)
+    return d
+
+
+def reent_via_above(spec):
+    """per unit: 0 = no via unit on its chain; 1 = it is one / has one above; 2 = a via unit STRICTLY
+    above it (the outer loop has further steps to do after the nested call returned)"""
+    out = []
+    for i, e in enumerate(spec):
+        above = 0 if e[0] is None else (2 if out[e[0]] >= 1 else 0)
+        own = 1 if (e[1] == "via" and e[0] is not None) else 0
+        out.append(max(above, own))
+    return out
+
+
+def reent_is_linear(spec):
+    return all(e[1] == "via" or e[0] is None or e[3] == 0 for e in spec)
+
+
+def gen_reent(r):
+    """2-3 plain units first (something for nested calls to walk), then a mix; at least one unit
+    whose callables call convert() AND has a unit chained below it."""
+    for _ in range(50):
+        n = r.randint(3, 9)
+        nroots = r.choice([1, 1, 1, 2])
+        linear = r.random() < 0.5
+        spec, depth, is_via = [], [], []
+        for i in range(n):
+            if i < nroots:
+                spec.append(AFF(None, 1, 0))
+                depth.append(0)
+                is_via.append(False)
+                continue
+            cands = [j for j in range(i) if depth[j] < 5]
+            vias = [j for j in cands if is_via[j] or (spec[j][0] is not None and is_via[spec[j][0]])]
+            k = r.random()
+            if vias and k < 0.5:
+                p = r.choice(vias)                   # below a unit that calls convert()
+            elif k < 0.75:
+                m = max(depth[j] for j in cands)
+                p = r.choice([j for j in cands if depth[j] == m])
+            else:
+                p = r.choice(cands)
+            if r.random() < 0.4 and i >= nroots:
+                deep = [j for j in range(i) if depth[j] >= 1]
+                s_ = r.choice(deep) if deep and r.random() < 0.5 else r.randrange(i)
+                d_ = r.choice(deep) if deep and r.random() < 0.7 else r.randrange(i)
+                spec.append(VIA(p, s_, d_, small_frac(r, nonzero=True)))
+                is_via.append(True)
+            else:
+                spec.append(AFF(p, small_frac(r, nonzero=True),
+                                0 if linear or r.random() < 0.3 else small_frac(r)))
+                is_via.append(False)
+            depth.append(depth[p] + 1)
+        if 2 in reent_via_above(spec):
+            return spec
+    return systematic_reent()[1]
+
+
+def systematic_reent():
+    """smallest first"""
+    return [
+        # yard-like: callables call convert() between roots (empty nested chains), a unit below it
+        [AFF(None, 1), VIA(0, 0, 0, 3), AFF(1, 2)],
+        # u1 plain; u2 = via convert(root, u1) / 3; u3 below u2
+        [AFF(None, 1), AFF(0, 2), VIA(0, 0, 1, 3), AFF(2, 5)],
+        # the same with offsets, and two units below
+        [AFF(None, 1), AFF(0, 2, 1), VIA(0, 0, 1, 3), AFF(2, 5, 4), AFF(3, 7, 9)],
+        # metre / foot / inch / yard / fathom / cable (exact decimals)
+        [AFF(None, 1), AFF(0, Fraction(3048, 10000)), AFF(1, Fraction(1, 12)), VIA(0, 0, 2, 36), AFF(3, 2),
+         AFF(4, 100)],
+        # the via unit in the middle of a chain (the SOURCE loop has steps left after the nested call too)
+        [AFF(None, 1), AFF(0, 2), AFF(1, 3), VIA(2, 0, 2, 5), AFF(3, 7), AFF(4, 11)],
+        # nesting: a via unit whose nested conversion runs through another via unit
+        [AFF(None, 1), AFF(0, 2), VIA(0, 0, 1, 3), AFF(2, 5), VIA(1, 1, 3, 7), AFF(4, 2), AFF(5, 3, 1)],
+        # rod-like: ... + a via unit defined below foot through yard
+        [AFF(None, 1), AFF(0, Fraction(3048, 10000)), AFF(1, Fraction(1, 12)), VIA(0, 0, 2, 36), AFF(3, 2),
+         VIA(1, 1, 3, Fraction(11, 2)), AFF(5, 4)],
+        # two via units in one chain
+        [AFF(None, 1), AFF(0, 2), VIA(1, 0, 1, 3), VIA(2, 1, 2, 5), AFF(3, 7), AFF(4, 2, 3)],
+    ]
+
+
+def build_reent(im, spec, log):
+    objs = []
+    conv = im.units.convert
+    for i, e in enumerate(spec):
+        p = e[0]
+        if p is None:
+            def up(x, i=i):
+                log.append((i, True))
+                return x
+
+            def down(x, i=i):
+                log.append((i, False))
+                return x
+        elif e[1] == "aff":
+            def up(x, i=i, a=e[2], b=e[3]):
+                log.append((i, True))
+                return a * x + b
+
+            def down(y, i=i, a=e[2], b=e[3]):
+                log.append((i, False))
+                return (y - b) / a
+        else:
+            def up(y, i=i, s_=e[2], d_=e[3], k=e[4]):
+                log.append((i, True))
+                return conv(objs[d_], objs[s_], y * k)
+
+            def down(m, i=i, s_=e[2], d_=e[3], k=e[4]):
+                log.append((i, False))
+                return conv(objs[s_], objs[d_], m) / k
+        objs.append(im.units.Unit(base_unit=None if p is None else objs[p], base_to_unit=down, unit_to_base=up))
+    return objs
+
+
+def call_reent(im, spec, a, b, x):
+    log = []
+    try:
+        objs = build_reent(im, spec, log)
+        r = im.units.convert(objs[a], objs[b], x)
+    except Exception as e:
+        return ("exc", type(e).__name__)
+    if not isinstance(r, Fraction):
+        return ("bad", repr(r)[:80])
+    return ("ok", (list(log), r))
+
+
 # --------------------------------------------------------------------------
 # the property stated directly over implementation observations (oracle)
 
@@ -1264,6 +1411,9 @@ def check_obj(im, o):
         return check_forest(im, o["clause"], spec, o["a"], o["b"], o.get("c"), dec(o["x"]))
     if k == "sonar":
         return check_sonar(im, o["pw"], o["out"], dec(o["reading"]))
+    if k == "reent":
+        return check_reent(im, o["clause"], dec_reent(o["units"]), o["a"], o["b"], o.get("c"), dec(o["x"]),
+                           dec(o.get("y")))
     if k == "pressure":
         cal = None if o.get("cal") is None else (dec(o["cal"][0]), dec(o["cal"][1]))
         return check_pressure(im, dec(o["vcc"]), cal, dec(o["v"]))
@@ -1372,6 +1522,138 @@ def oracle_forests_raw(im, r, specs):
             if v:
                 return v
     return None
+
+
+# ---- re-entrant definitions: the property, exactly (Fractions)
+
+def enc_reent(spec):
+    return [[e[0], e[1]] + [enc(x) if isinstance(x, Fraction) else x for x in e[2:]] for e in spec]
+
+
+def dec_reent(spec):
+    return [tuple([e[0], e[1]] + [dec(x) for x in e[2:]]) for e in spec]
+
+
+def show_reent(spec):
+    out = []
+    for i, e in enumerate(spec):
+        if e[0] is None:
+            out.append("u%d = root" % i)
+        elif e[1] == "aff":
+            out.append("u%d = Unit(u%d, to base: x*(%s)%s)" % (i, e[0], e[2], "" if e[3] == 0 else " + (%s)" % e[3]))
+        else:
+            out.append("u%d = Unit(u%d, base_to_unit = lambda m: convert(u%d, u%d, m)/(%s), unit_to_base = "
+                       "lambda y: convert(u%d, u%d, y*(%s)))" % (i, e[0], e[2], e[3], e[4], e[3], e[2], e[4]))
+    return "; ".join(out)
+
+
+def check_reent(im, clause, spec, a, b, c, x, y=None):
+    """one clause on user-defined units some of whose callables call convert(); all callables are
+    mutually inverse by construction (a, k != 0), exact arithmetic"""
+    base = dict(clause=clause, a=a, b=b, c=c, x=enc(x), y=enc(y), units=enc_reent(spec))
+    desc = "units whose callables call convert() themselves: %s" % show_reent(spec)
+    val = lambda r: r[1][1] if r[0] == "ok" else r
+    if clause == "same_unit":
+        r = call_reent(im, spec, a, a, x)
+        if r[0] != "ok" or r[1][1] != x:
+            return viol("reent", "convert-reentrant-identity",
+                        "convert(u%d, u%d, %s) = %s, expected %s; %s" % (a, a, x, val(r), x, desc), **base)
+    elif clause == "there_and_back":
+        r = call_reent(im, spec, a, b, x)
+        r2 = call_reent(im, spec, b, a, r[1][1]) if r[0] == "ok" else r
+        if r2[0] != "ok" or r2[1][1] != x:
+            return viol("reent", "convert-reentrant-round-trip",
+                        "u%d -> u%d -> u%d of %s = %s, expected %s; %s" % (a, b, a, x, val(r2), x, desc), **base)
+    elif clause == "composition":
+        r = call_reent(im, spec, a, b, x)
+        r2 = call_reent(im, spec, b, c, r[1][1]) if r[0] == "ok" else r
+        r1 = call_reent(im, spec, a, c, x)
+        if r1[0] != "ok" or r2[0] != "ok" or r1[1][1] != r2[1][1]:
+            return viol("reent", "convert-reentrant-composition",
+                        "u%d -> u%d -> u%d of %s = %s but u%d -> u%d directly = %s; %s" %
+                        (a, b, c, x, val(r2), a, c, val(r1), desc), **base)
+    elif clause == "linear":
+        if not reent_is_linear(spec):
+            return None
+        rx, ry, rs = call_reent(im, spec, a, b, x), call_reent(im, spec, a, b, y), call_reent(im, spec, a, b, x + y)
+        if rx[0] != "ok" or ry[0] != "ok" or rs[0] != "ok" or rs[1][1] != rx[1][1] + ry[1][1]:
+            return viol("reent", "convert-reentrant-linear",
+                        "convert(u%d, u%d, %s + %s) = %s but the parts give %s + %s; %s" %
+                        (a, b, x, y, val(rs), val(rx), val(ry), desc), **base)
+    return None
+
+
+def shrink_reent(im, v):
+    """keep the units on the chains of the units involved and whatever their callables mention;
+    simplest value"""
+    spec = dec_reent(v["units"])
+    keep, todo = set(), [u for u in (v["a"], v["b"], v.get("c")) if u is not None]
+    while todo:
+        u = todo.pop()
+        if u in keep:
+            continue
+        keep.add(u)
+        e = spec[u]
+        if e[0] is not None:
+            todo.append(e[0])
+            if e[1] == "via":
+                todo += [e[2], e[3]]
+    order = sorted(keep)
+    ren = {u: i for i, u in enumerate(order)}
+    small = []
+    for u in order:
+        e = spec[u]
+        p = None if e[0] is None else ren[e[0]]
+        if e[1] == "via" and e[0] is not None:
+            small.append((p, "via", ren[e[2]], ren[e[3]], e[4]))
+        elif e[1] == "via":
+            small.append(AFF(None, 1))             # a root's callables are never used
+        else:
+            small.append((p, "aff", e[2], e[3]))
+    c = v.get("c")
+    yv = dec(v.get("y"))
+    for x in (Fraction(1), Fraction(0), dec(v["x"])):
+        w = check_reent(im, v["clause"], small, ren[v["a"]], ren[v["b"]], None if c is None else ren[c], x, yv)
+        if w:
+            return w
+    return v
+
+
+def oracle_reent_raw(im, r, specs):
+    xs = [Fraction(1), Fraction(0), Fraction(7, 2), Fraction(-3)]
+    for spec in specs:
+        m = len(spec)
+        for a in range(m):
+            for x in xs[:2]:
+                v = check_reent(im, "same_unit", spec, a, a, None, x)
+                if v:
+                    return v
+        for a in range(m):
+            for b in range(m):
+                v = check_reent(im, "there_and_back", spec, a, b, None, xs[2])
+                if v:
+                    return v
+        trip = ([(a, b, c) for a in range(m) for b in range(m) for c in range(m)] if m <= 4 else
+                [(r.randrange(m), r.randrange(m), r.randrange(m)) for _ in range(4 * m)])
+        for a, b, c in trip:
+            v = check_reent(im, "composition", spec, a, b, c, r.choice(xs))
+            if v:
+                return v
+        if reent_is_linear(spec):
+            for _ in range(2 * m):
+                v = check_reent(im, "linear", spec, r.randrange(m), r.randrange(m), None, xs[2], xs[3])
+                if v:
+                    return v
+    return None
+
+
+def oracle_reent(im, r, n, first=()):
+    v = oracle_reent_raw(im, r, list(first))
+    if v:                                    # shrink: the smallest systematic definition list with the same failure
+        w = oracle_reent_raw(im, r, systematic_reent())
+        return shrink_reent(im, w if w and w["fingerprint"] == v["fingerprint"] else v)
+    v = oracle_reent_raw(im, r, systematic_reent() + [gen_reent(r) for _ in range(n)])
+    return shrink_reent(im, v) if v else None
 
 
 def oracle_sonar(im, r, n, first=()):
@@ -1563,7 +1845,60 @@ def run(ctx):
         ctx.count("forest:max-depth=%d" % max(d))
         depth_seen[max(d)] = depth_seen.get(max(d), 0) + 1
 
+    # user-defined units whose callables call convert() themselves (re-entrant definitions)
+    reent = []
+    n_reent = 4000 if thorough else 300
+    sysr = systematic_reent()
+    for k in range(n_reent):
+        for _ in range(20):
+            spec = sysr[k] if k < len(sysr) else gen_reent(r)
+            m = len(spec)
+            va = reent_via_above(spec)
+            below = [u for u in range(m) if va[u] == 2]
+            batch = []
+            for q in range(6 if k < len(sysr) else 5):
+                if q == 0:
+                    a, b = m - 1, m - 1
+                elif q == 1 and below:
+                    a, b = r.randrange(m), r.choice(below)        # target below a unit that calls convert()
+                elif q == 2 and below:
+                    a, b = r.choice(below), r.randrange(m)        # source below one
+                elif q == 3 and below:
+                    a = b = r.choice(below)
+                else:
+                    a, b = r.randrange(m), r.randrange(m)
+                x = small_frac(r) * r.choice([1, 1, 10, 1000])
+                batch.append((spec, a, b, x, call_reent(im, spec, a, b, x)))
+            if k < len(sysr) or all(c[4][0] != "ok" or len(c[4][1][0]) <= 120 for c in batch):
+                break                                             # else: nesting blew the log up, take another
+        reent += batch
+        ctx.count("reent:units-calling-convert=%d" % min(3, sum(1 for e in spec if e[1] == "via" and e[0] is not None)))
+        ctx.count("reent:%s" % ("linear" if reent_is_linear(spec) else "affine"))
+        for c in batch:
+            if c[4][0] == "ok":
+                nested = sum(1 for u, _ in c[4][1][0] if spec[u][1] == "via")
+                ctx.count("reent:conversion-with-nested-calls" if nested else "reent:conversion-without-nested-call")
+                if va[c[2]] == 2:
+                    ctx.count("reent:target-below-a-unit-calling-convert")
+                if va[c[1]] == 2:
+                    ctx.count("reent:source-below-a-unit-calling-convert")
+
     # ---- comparison with the model inside Coq ---------------------------
+    def reent_txt(c):
+        spec, a, b, x, res = c
+        ents = []
+        for e in spec:
+            par = "None" if e[0] is None else "Some %s" % coq_nat(e[0])
+            if e[1] == "aff":
+                ents.append("(%s, UAffine %s %s)" % (par, coq_Q(e[2]), coq_Q(e[3])))
+            else:
+                ents.append("(%s, UVia %s %s %s)" % (par, coq_nat(e[2]), coq_nat(e[3]), coq_Q(e[4])))
+        obs = "None"
+        if res[0] == "ok":
+            log, y = res[1]
+            obs = "(Some (%s, %s))" % (coq_list(["(%s, %s)" % (coq_nat(u), coq_bool(d)) for u, d in log]), coq_Q(y))
+        return "(%s, %s, %s, %s, %s)" % (coq_list(ents), coq_nat(a), coq_nat(b), coq_Q(x), obs)
+
     def conv_txt(c):
         a, b, x, res = c
         return "(%s, %s, %s, %s)" % (coq_nat(a), coq_nat(b), coq_Q(x), coq_obs(res))
@@ -1609,8 +1944,9 @@ def run(ctx):
         ("pressure", press, "pressure_case", "pressure_ok %s" % consts_name, press_txt, False),
         ("history", hist, "history_case", "history_ok %s" % consts_name, hist_txt, False),
         ("forest", forest, "forest_case", "forest_ok", forest_txt, False),
+        ("reent", reent, "reent_case", "reent_ok", reent_txt, False),
     ]
-    per_file = {"history": HIST_PER_FILE}
+    per_file = {"history": HIST_PER_FILE, "reent": REENT_PER_FILE}
     items, index = [], {}
     for fam, cases, ty, okf, txt, needs_gen in families:
         if needs_gen and not gen_ok:
@@ -1625,7 +1961,7 @@ def run(ctx):
             items.append((name, text))
             index[name] = (fam, k, cases)
     res = ctx.coq_files_parallel(items)
-    disagree = {"conv": [], "triple": [], "sonar": [], "pressure": [], "history": [], "forest": []}
+    disagree = {"conv": [], "triple": [], "sonar": [], "pressure": [], "history": [], "forest": [], "reent": []}
     for name, _ in items:
         fam, k, cases = index[name]
         rc, out = res[name]
@@ -1638,8 +1974,9 @@ def run(ctx):
     nontrivial = (sum(1 for a, b, x, res in conv if a != b and x != 0) +
                   sum(1 for a, b, c, x, res in tri if len({a, b, c}) > 1 and x != 0) +
                   sum(1 for c in sonar if c[2] != 0) + len(press) + len(hist) +
-                  sum(1 for spec, a, b, x, res in forest if res[0] == "ok" and len(res[1][0]) >= 2))
-    total = len(conv) + len(tri) + len(sonar) + len(press) + len(hist) + len(forest)
+                  sum(1 for spec, a, b, x, res in forest if res[0] == "ok" and len(res[1][0]) >= 2) +
+                  sum(1 for spec, a, b, x, res in reent if res[0] == "ok" and any(spec[u][1] == "via" for u, _ in res[1][0])))
+    total = len(conv) + len(tri) + len(sonar) + len(press) + len(hist) + len(forest) + len(reent)
     ctx.coverage.update({
         "evaluations": total,
         "traces_validated_against_impl": total,
@@ -1652,8 +1989,13 @@ def run(ctx):
                 "object, 2-8 (thorough 12) calls: reads and calibrate(p) (p >= 0, some < 0, some -25 which raises) "
                 "over 1-3 voltages, 45 % start with a read, reads at the voltage of the calibration in force "
                 "preferred, every call's result compared; forests: 2-12 units, "
-                "1-3 roots, depth <= 6, exact affine links, 5 conversions each. non-trivial = units differ and "
-                "value != 0 (convert), reading != 0 (sonar), every pressure case, >= 2 callable applications (forest)",
+                "1-3 roots, depth <= 6, exact affine links, 5 conversions each; re-entrant definitions: 3-9 units, "
+                "~40 % of the non-root units have callables that call convert() on two earlier units (nesting "
+                "allowed), every list has a unit chained BELOW such a unit, 5 conversions each (target below / "
+                "source below / same unit / random), complete log of callable applications and exact result "
+                "compared. non-trivial = units differ and "
+                "value != 0 (convert), reading != 0 (sonar), every pressure case, >= 2 callable applications "
+                "(forest), at least one nested convert() call (re-entrant)",
         "exhaustive": False,
         "forest_depth_histogram": depth_seen,
         "samples": [
@@ -1662,6 +2004,8 @@ def run(ctx):
             {"history": [repr(hist[-1][0]), show_ops(hist[-1][1])], "impl": repr(hist[-1][2])},
             {"forest": [[p, str(k), str(d)] for p, k, d in forest[-1][0]], "src": forest[-1][1], "dst": forest[-1][2],
              "x": str(forest[-1][3]), "impl": repr(forest[-1][4])},
+            {"reentrant": show_reent(reent[-1][0]), "src": reent[-1][1], "dst": reent[-1][2],
+             "x": str(reent[-1][3]), "impl": repr(reent[-1][4])},
         ],
     })
 
@@ -1670,12 +2014,14 @@ def run(ctx):
         firsts = {
             "units": [c[-2] for c in disagree["conv"][:20]] + [c[-2] for c in disagree["triple"][:20]],
             "forest": [c[0] for c in disagree["forest"][:20]],
+            "reent": [c[0] for c in disagree["reent"][:20]],
             "sonar": [(c[0], c[1], c[2]) for c in disagree["sonar"][:20]],
             "pressure": [(c[0], c[1], c[2]) for c in disagree["pressure"][:20]],
             "history": [(c[0], c[1]) for c in disagree["history"][:20]],
         }
         for f in (lambda: oracle_units(im, r, n, firsts["units"]),
                   lambda: oracle_forests(im, r, n // 4, firsts["forest"]),
+                  lambda: oracle_reent(im, r, n // 4, firsts["reent"]),
                   lambda: oracle_sonar(im, r, n, firsts["sonar"]),
                   lambda: oracle_pressure(im, r, n * 4, firsts["pressure"]),
                   lambda: oracle_history(im, r, n * 2, firsts["history"])):
@@ -1689,7 +2035,7 @@ def run(ctx):
 
 def replay(ctx, obj):
     im = impl()
-    if obj.get("kind") in ("convert", "forest", "sonar", "pressure", "history"):
+    if obj.get("kind") in ("convert", "forest", "reent", "sonar", "pressure", "history"):
         v = check_obj(im, obj)
         print("recorded: %s" % obj.get("what"))
         if v is not None:
